@@ -369,6 +369,25 @@ func runC17(e *Env) {
 	// publishes a mixture that carries the valid hash line.
 	for _, rn := range renames {
 		src := rn.Call.Args[0]
+		// `tmp := f.Name()` kept in a variable that a closure shares: the one value assigned to it
+		for i := 0; i < 3; i++ {
+			ld, ok := src.(*ssa.UnOp)
+			if !ok || ld.Op != token.MUL {
+				break
+			}
+			cell, _ := ld.X.(*ssa.Alloc)
+			if fv, ok := ld.X.(*ssa.FreeVar); ok {
+				cell = freeVarCell(fv)
+			}
+			if cell == nil {
+				break
+			}
+			st := singleAssignment(cell)
+			if st == nil {
+				break
+			}
+			src = st.Val
+		}
 		key := load.FuncName(rn.Parent()) + "/temp-file-is-this-run's"
 		var fromTemp func(v ssa.Value, depth int) bool
 		fromTemp = func(v ssa.Value, depth int) bool {
@@ -653,6 +672,11 @@ func checkWholeContentHash(e *Env, p *load.Program, hb *ssa.Function) {
 		}
 		if c := resultOf(v, "os", "Open"); c != nil {
 			return len(c.Call.Args) == 1 && isPathParam(c.Call.Args[0])
+		}
+		if c := resultOf(v, "os", "OpenFile"); c != nil && len(c.Call.Args) == 3 {
+			// read-only: O_RDONLY is 0 everywhere
+			k, isK := flow.ConstInt(c.Call.Args[1])
+			return isK && k == 0 && isPathParam(c.Call.Args[0])
 		}
 		for _, w := range [][2]string{{"bufio", "NewReader"}, {"bufio", "NewReaderSize"}} {
 			if c := resultOf(v, w[0], w[1]); c != nil && len(c.Call.Args) >= 1 {
